@@ -255,6 +255,20 @@ func c16Actors() []c16Actor {
 				_ = started
 			})
 		}},
+		{"U UseSession whose callback starts a transaction and gives up with an error", func(e *c16Env, k int) {
+			e.spawn(fmt.Sprintf("U%d", k), func() {
+				err := e.w.Client.UseSession(e.w.Ctx, func(sc lungo.ISessionContext) error {
+					if err := sc.StartTransaction(); err != nil {
+						e.note("U.start", err)
+						return err
+					}
+					return errBoom
+				})
+				if err != errBoom {
+					e.note("U.use", err)
+				}
+			})
+		}},
 		{"C engine Close", func(e *c16Env, k int) {
 			e.spawn(fmt.Sprintf("C%d", k), func() {
 				e.w.Engine.Close()
@@ -393,13 +407,16 @@ func init() {
 		}
 		var scs []scen
 		// Z (two threads on one session) is not part of the multiset product: it gets scenarios of its own below
-		zi := -1
+		zi, ui := -1, -1
 		for i, a := range actors {
 			if a.name[0] == 'Z' {
 				zi = i
 			}
+			if a.name[0] == 'U' {
+				ui = i
+			}
 		}
-		inProduct := func(i int) bool { return i != zi }
+		inProduct := func(i int) bool { return i != zi && i != ui }
 		for i := range actors {
 			for j := i; j < len(actors); j++ {
 				if inProduct(i) && inProduct(j) {
@@ -447,6 +464,16 @@ func init() {
 				b = 3
 			}
 			scs = append(scs, scen{idx, b})
+		}
+		// U alone and next to a plain writer
+		for _, other := range []string{"", "D "} {
+			idx := []int{ui}
+			for i, a := range actors {
+				if other != "" && strings.HasPrefix(a.name, other) {
+					idx = append(idx, i)
+				}
+			}
+			scs = append(scs, scen{idx, 2})
 		}
 		// scenarios with four or more actor threads (two of the two-thread actors E, X, V) get one preemption less
 		for i := range scs {
